@@ -369,7 +369,11 @@ func rootIdent(e ast.Expr) *ast.Ident {
 
 var readOnlyMethods = map[string]bool{"Bytes": true, "Cmp": true, "Sign": true, "BitLen": true, "String": true, "Params": true,
 	"IsZero": true, "Equal": true, "Supports": true, "Text": true, "Bit": true, "Int64": true, "Uint64": true, "IsInt64": true,
-	"CmpAbs": true, "Bits": true, "FillBytes": true, "Error": true, "GetRaw": true, "ToBigInt": true, "Has": true}
+	"CmpAbs": true, "Bits": true, "FillBytes": true, "Error": true, "GetRaw": true, "ToBigInt": true, "Has": true,
+	// methods of the synchronisation types themselves (sync.Pool, sync.Map, sync/atomic values, mutexes, Once, WaitGroup)
+	"Get": true, "Put": true, "Load": true, "Store": true, "Swap": true, "CompareAndSwap": true, "LoadOrStore": true,
+	"LoadAndDelete": true, "Delete": true, "Range": true, "Lock": true, "Unlock": true, "RLock": true, "RUnlock": true,
+	"Do": true, "Wait": true, "Done": true, "TryLock": true}
 
 func pkgWrites(repo string, dirs []string) []map[string]string {
 	out := []map[string]string{}
